@@ -742,7 +742,15 @@ impl<'h> Interp<'h> {
             "lipe-getopt-client-mount-path" => { argc(0)?; Ok(Val::Opaque(Rc::from("client-mount-path"))) }
             "lipe-getopt-required-attrs" => { argc(0)?; Ok(Val::Opaque(Rc::from("required-attrs"))) }
             "lipe-getopt-thread-count" => { argc(0)?; Ok(Val::Opaque(Rc::from("default-thread-count"))) }
-            "lipe-scan-break" => { argc(1)?; int(0)?; Err(Ctl::Break) }
+            "lipe-scan-break" => {
+                argc(1)?;
+                // the argument is the scan's completion status; -quit ends the scan normally (0)
+                let status = int(0)?;
+                if status != 0 {
+                    return err(format!("lipe-scan-break: status {status} (find's -quit completes normally: status 0)"));
+                }
+                Err(Ctl::Break)
+            }
             "lipe-scan" => {
                 argc(5)?;
                 match &a[0] {
